@@ -59,7 +59,7 @@ def forward_sites_check(ch: Checker, rule: str, want_via: bool, via_rule: Option
                     if j >= idx:
                         break
                     for c in walk_no_nested(s2):
-                        if isinstance(c, ast.Call) and isinstance(c.func, ast.Attribute) and norm(c.func.value) == P:
+                        if isinstance(c, ast.Call) and isinstance(c.func, ast.Attribute) and norm(sym.value(c.func.value, j)) == P:
                             if c.func.attr in ('del_headers', 'del_header') and c.args:
                                 v = ce.try_eval(fn.module, sym.value(c.args[0], j))
                                 if isinstance(v, bytes):
